@@ -15,6 +15,7 @@ import ast
 from collections import deque
 
 from .index import AnalysisError, builtin_exc
+from .inline import InlineBlock, InlineJump, ret_const
 
 NORETURN_CALLS = {"os._exit", "os.execvpe", "os.execv", "os.execve", "os.execvp", "os.execl",
                   "os.execlp", "os.execle", "os.abort"}
@@ -82,6 +83,12 @@ class _Loop:
     def __init__(self, head):
         self.head = head
         self.breaks = []
+
+
+class _Inline:
+    def __init__(self, block):
+        self.block = block
+        self.exits = []
 
 
 class _WithSwallow:
@@ -372,6 +379,20 @@ class _Builder:
 
     def stmt(self, st, frontier, stack):
         g = self.g
+        if isinstance(st, InlineBlock):
+            fr = _Inline(st)
+            out = self.seq(st.body, frontier, stack + (fr,))
+            return out + fr.exits
+        if isinstance(st, InlineJump):
+            n = self.new_stmt(st, frontier, stack, may_raise=False)
+            for i in range(len(stack) - 1, -1, -1):
+                if isinstance(stack[i], _Inline) and stack[i].block.uid == st.uid:
+                    break
+            else:
+                raise AnalysisError("inline jump without block in %s" % self.f.qualname)
+            fr = self.unwind([(n, "next")], stack, i + 1)
+            stack[i].exits.extend(fr)
+            return []
         if isinstance(st, ast.If):
             t, f = self.cond(st.test, frontier, stack, st)
             a = self.seq(st.body, t, stack)
@@ -543,6 +564,26 @@ class _Builder:
             if e.value:
                 return frontier, []
             return [], frontier
+        if isinstance(e, ast.Name) and e.id.startswith("__ret_"):
+            # the boolean a helper returned, tested right after its expanded body: an exit that returned a literal
+            # goes straight to the branch that literal selects (the expansion must not add infeasible paths)
+            tt, ff, rest = [], [], []
+            for a, l in frontier:
+                r = None
+                if l == "next" and a.kind == "stmt":
+                    r = getattr(a.ast, "ret", None) if isinstance(a.ast, InlineJump) else ret_const(a.ast)
+                if r is not None and r[0] == e.id:
+                    (tt if r[1] else ff).append((a, l))
+                else:
+                    rest.append((a, l))
+            if tt or ff:
+                if rest:
+                    t2, f2 = self._plain_test(e, rest, stack, stmt)
+                    return t2 + tt, f2 + ff
+                return tt, ff
+        return self._plain_test(e, frontier, stack, stmt)
+
+    def _plain_test(self, e, frontier, stack, stmt):
         n = self.g._new("test", e, stmt)
         n.cover = [e]
         self.connect(frontier, n)
@@ -581,7 +622,7 @@ def _trivial_expr(e):
 
 def _trivial(st):
     """statements that cannot raise (no call, subscript, attribute access, arithmetic)"""
-    if isinstance(st, (ast.Pass, ast.Break, ast.Continue, ast.Global, ast.Nonlocal)):
+    if isinstance(st, (ast.Pass, ast.Break, ast.Continue, ast.Global, ast.Nonlocal, InlineJump)):
         return True
     if isinstance(st, ast.Expr):
         return isinstance(st.value, ast.Constant)
